@@ -70,8 +70,8 @@ fn step_plain<const NCLS: i64, const VAL: u8, const LOWER: bool, const FULL: boo
         assert!(prop_key_str(&st.props[n_props]) == Some(name), "C01: the prop key is the written attribute name");
         assert!(matches!(prop_value(&st.props[n_props]), Some(x) if value_ok(x, VAL)), "C01: the prop value is the written expression / `true` / the normalised string");
     }
-    kani::cover!(e.dp_insert, "dynamic prop recorded");
-    kani::cover!(!e.dp_insert, "dynamic prop not recorded");
+    kani::cover!(comp && p.has_ref, "component host, ref seen earlier: reachable");
+    kani::cover!(!comp && !p.hyd, "element host, no hydration binding yet: reachable");
     std::mem::forget(st); std::mem::forget(a); std::mem::forget(v);
 }
 macro_rules! stp { ($($n:ident: $k:expr, $v:expr, $l:expr, $f:expr;)*) => { $(#[kani::proof] #[kani::unwind(3)]
@@ -80,9 +80,15 @@ macro_rules! stp { ($($n:ident: $k:expr, $v:expr, $l:expr, $f:expr;)*) => { $(#[
     fn $n() { step_plain::<$k, $v, $l, $f>() })* } }
 stp! {
     step_ref: 0, 0, false, false; step_class: 1, 0, false, false; step_style: 2, 0, false, false; step_key: 3, 0, false, false; step_on: 4, 0, false, false; step_nativeon: 5, 0, false, false;
-    step_onclick_camel: 6, 0, false, false; step_onclick_lower: 6, 0, true, false; step_onupdate_mv: 7, 0, false, false; step_listener: 8, 0, false, false; step_other: 9, 0, false, false; step_other_fullstate: 9, 0, false, true; step_nativeon_fullstate: 5, 0, false, true;
+    step_onupdate_mv: 7, 0, false, false; step_listener: 8, 0, false, false; step_other: 9, 0, false, false; step_other_fullstate: 9, 0, false, true; step_nativeon_fullstate: 5, 0, false, true;
     step_other_valueless: 9, 1, false, false; step_other_string: 9, 2, false, false; step_class_string: 1, 2, false, false; step_listener_valueless: 8, 1, false, false; step_ref_string: 0, 2, false, false;
 }
+
+macro_rules! stp9 { ($($n:ident: $k:expr, $v:expr, $l:expr, $f:expr;)*) => { $(#[kani::proof] #[kani::unwind(9)]
+    #[kani::stub(std::ptr::drop_in_place, no_drop)] #[kani::stub(core::ptr::drop_glue, no_glue)]
+    #[kani::stub(crate::util::transform_text, tt_marker)] #[kani::stub(crate::util::is_jsx_attr_value_constant, const_model)] #[kani::stub(alloc::fmt::format, fmt_marker)]
+    fn $n() { step_plain::<$k, $v, $l, $f>() })* } }
+stp9! { step_onclick_camel: 6, 0, false, false; step_onclick_lower: 6, 0, true, false; }
 
 /// spread arm (C01 spread placement per mergeProps; C13 spreads force has_dynamic_keys)
 fn step_spread<const OBJ: bool>() {
@@ -283,3 +289,10 @@ macro_rules! stf { ($($n:ident: $k:expr;)*) => { $(#[kani::proof] #[kani::unwind
     #[kani::stub(crate::util::dedupe_props, dedupe_identity)]
     fn $n() { step_spread_flag::<$k>() })* } }
 stf! { step_spread_flag_expr: false; step_spread_flag_object: true; }
+
+// a caller verified against the CONTRACTS of is_on (not its body): the plain arm for a listener name
+#[kani::proof] #[kani::unwind(3)]
+#[kani::stub(std::ptr::drop_in_place, no_drop)] #[kani::stub(core::ptr::drop_glue, no_glue)]
+#[kani::stub(crate::util::transform_text, tt_marker)] #[kani::stub(crate::util::is_jsx_attr_value_constant, const_model)] #[kani::stub(alloc::fmt::format, fmt_marker)]
+#[kani::stub_verified(crate::util::is_on)]
+fn step_listener_modular() { step_plain::<8, 0, false, false>() }
